@@ -56,12 +56,15 @@ package state
 // a ready task only becomes unready while another task of its change is
 // unready; SetClean only on tasks of ready changes; wait edges only between
 // tasks of the same change (or both unlinked, then they are added together)
-// and only from a younger to an older task (no cycles).
+// and only from a younger to an older task (no cycles); no task in Do waits
+// for a task in Undo (a deadlock that Change.Status() reports by writing into
+// the task log, i.e. the observation would modify the state).
 
 import (
 	"bytes"
 	"encoding/json"
 	"fmt"
+	"os"
 	"sort"
 	"strings"
 	"testing"
@@ -127,7 +130,15 @@ type c05Obs struct {
 	m    map[string]string
 }
 
+// VERIF_C05_PUBLIC_ONLY=1 leaves the hidden/ section (in-package reads of
+// persisted fields that have no accessor) out of the observation; used to
+// show that the public oracles alone notice a lost counter or timestamp.
+var c05PublicOnly = os.Getenv("VERIF_C05_PUBLIC_ONLY") != ""
+
 func (o *c05Obs) put(path, format string, args ...interface{}) {
+	if c05PublicOnly && strings.HasPrefix(path, "hidden/") {
+		return
+	}
 	if _, dup := o.m[path]; dup {
 		panic("HARNESS: duplicate observation path " + path)
 	}
@@ -302,6 +313,9 @@ func c05Observe(st *State, r *c05Run) *c05Obs {
 	for _, n := range ns {
 		js, m := c05NoticeJSON(n)
 		id, _ := m["id"].(string)
+		if id != n.id {
+			id = n.id + "(json says " + id + ")"
+		}
 		nids = append(nids, id)
 		p := "notice/" + id
 		o.put(p+"/string", n.String())
@@ -322,9 +336,7 @@ func c05Observe(st *State, r *c05Run) *c05Obs {
 		u := uid
 		var ids []string
 		for _, n := range st.Notices(&NoticeFilter{UserID: &u}) {
-			_, m := c05NoticeJSON(n)
-			id, _ := m["id"].(string)
-			ids = append(ids, id)
+			ids = append(ids, n.id)
 		}
 		sort.Slice(ids, func(i, j int) bool { return c05IDLess(ids[i], ids[j]) })
 		o.put(fmt.Sprintf("state/notices-user-%d", uid), strings.Join(ids, ","))
@@ -332,9 +344,7 @@ func c05Observe(st *State, r *c05Run) *c05Obs {
 	for i, pt := range probeTimes {
 		var ids []string
 		for _, n := range st.Notices(&NoticeFilter{After: pt}) {
-			_, m := c05NoticeJSON(n)
-			id, _ := m["id"].(string)
-			ids = append(ids, id)
+			ids = append(ids, n.id)
 		}
 		sort.Slice(ids, func(i, j int) bool { return c05IDLess(ids[i], ids[j]) })
 		o.put(fmt.Sprintf("state/notices-after-%d", i), strings.Join(ids, ","))
@@ -361,25 +371,15 @@ func c05Observe(st *State, r *c05Run) *c05Obs {
 		o.put(p+"/expired-show", strings.Join(beh, " "))
 	}
 	o.put("state/warnings", strings.Join(msgs, ","))
-	// PendingWarnings/WarningsSummary also count warnings that have expired but
-	// were not pruned yet; a save legitimately drops those.
-	expRef := r.base.Add(150 * time.Second)
 	pend, _ := st.PendingWarnings()
 	var pmsgs []string
 	for _, w := range pend {
-		if !w.ExpiredBefore(expRef) {
-			pmsgs = append(pmsgs, fmt.Sprintf("%q", w.String()))
-		}
+		pmsgs = append(pmsgs, fmt.Sprintf("%q", w.String()))
 	}
 	sort.Strings(pmsgs)
 	o.put("state/warnings-pending", strings.Join(pmsgs, ","))
-	if len(st.warnings) == len(ws) {
-		nw, last := st.WarningsSummary()
-		o.put("state/warnings-summary", "%d %s", nw, c05Time(last))
-		if nw != len(pmsgs) {
-			o.put("state/warnings-summary-count", "WarningsSummary counts %d, PendingWarnings lists %d", nw, len(pmsgs))
-		}
-	}
+	nw, last := st.WarningsSummary()
+	o.put("state/warnings-summary", "%d %s", nw, c05Time(last))
 
 	o.put("hidden/state/last-change-id", "%d", st.lastChangeId)
 	o.put("hidden/state/last-task-id", "%d", st.lastTaskId)
@@ -587,6 +587,32 @@ func c05Component(t *Task) (comp []*Task, ok bool) {
 	return comp, true
 }
 
+// c05Deadlock: would t in status s (with the extra prerequisite extra, if any)
+// make a not yet started task wait for a task that is to be undone?  Such a
+// pair waits for each other; no caller produces it and Change.Status() logs
+// "detected cyclic dependencies" into the task each time it meets one, i.e.
+// observing would change the state.
+func c05Deadlock(t *Task, s Status, extra *Task) bool {
+	if s == DoStatus {
+		for _, w := range t.WaitTasks() {
+			if w != nil && w.Status() == UndoStatus {
+				return true
+			}
+		}
+		if extra != nil && extra.Status() == UndoStatus {
+			return true
+		}
+	}
+	if s == UndoStatus {
+		for _, h := range t.HaltTasks() {
+			if h != nil && h.Status() == DoStatus {
+				return true
+			}
+		}
+	}
+	return false
+}
+
 // c05MayBecomeUnready: the precondition for a ready->unready transition of t.
 func c05MayBecomeUnready(t *Task) bool {
 	chg := t.Change()
@@ -735,6 +761,9 @@ func (l *c05Line) apply(op c05Op, r *c05Run) (string, error) {
 			return skip, nil
 		}
 		o := cands[c05Pick(len(cands), op.B)]
+		if c05Deadlock(t, t.Status(), o) {
+			return skip, nil
+		}
 		t.WaitFor(o)
 		return fmt.Sprintf("wait %s -> %s", t.ID(), o.ID()), nil
 	case "join":
@@ -783,6 +812,9 @@ func (l *c05Line) apply(op c05Op, r *c05Run) (string, error) {
 		s := c05TaskStatuses[c05Pick(len(c05TaskStatuses), op.S)]
 		becomesReady := s.Ready() && op.Op == "tstatus"
 		if t.Status().Ready() && !becomesReady && !c05MayBecomeUnready(t) {
+			return skip, nil
+		}
+		if op.Op == "tstatus" && c05Deadlock(t, s, nil) {
 			return skip, nil
 		}
 		if op.Op == "twait" {
@@ -1047,11 +1079,15 @@ func (r *c05Run) reload(opIdx int) error {
 	}
 	old := r.b.st
 	r.classify(old)
-	obsOld := c05Observe(old, r)
 	payload, err := json.Marshal(old)
 	if err != nil {
 		return verifkit.Violatef("C05: state cannot be marshalled at op %d: %v", opIdx, err)
 	}
+	// the payload was written from the state as it was; the saved state is then
+	// observed without the expired notices/warnings that a save may drop
+	// (PendingWarnings, WarningsSummary and Notice(id) still see those)
+	r.b.dropExpired(r)
+	obsOld := c05Observe(old, r)
 	fresh, err := ReadState(nil, bytes.NewReader(payload))
 	if err != nil {
 		return verifkit.Violatef("C05: checkpoint payload cannot be read back at op %d: %v", opIdx, err)
@@ -1222,12 +1258,12 @@ func c05GenJSON(t *rapid.T, depth int) interface{} {
 }
 
 func c05GenValue(t *rapid.T) string {
-	switch k := rapid.IntRange(0, 59).Draw(t, "vkind"); {
-	case k == 0:
+	switch k := (rapid.IntRange(0, 159).Draw(t, "vkind") + 63) % 160; { // rapid favours the ends of a range
+	case k <= 1:
 		return rapid.SampledFrom([]string{"@nilslice", "@nilmap", "@nilptr", "@rawnull"}).Draw(t, "null")
-	case k <= 4:
+	case k <= 12:
 		return "@delete"
-	case k <= 7:
+	case k <= 20:
 		return rapid.SampledFrom([]string{"@raw:{ \"a\" : [ 1 , null ] }", "@raw:  \"text\"", "@raw:[\n]", "@raw:{\"n\":null}"}).Draw(t, "raw")
 	}
 	b, err := json.Marshal(c05GenJSON(t, 0))
@@ -1241,9 +1277,10 @@ var c05OpWeights = []struct {
 	op string
 	w  int
 }{
-	{"chg", 7}, {"task", 11}, {"lane", 4}, {"add", 9}, {"wait", 7}, {"join", 7}, {"tset", 6}, {"tclear", 2}, {"cset", 3}, {"sset", 3},
-	{"tstatus", 11}, {"twait", 4}, {"at", 4}, {"log", 4}, {"progress", 3}, {"clean", 3}, {"acct", 2}, {"cstatus", 3},
-	{"notice", 9}, {"warn", 4}, {"unwarn", 1}, {"okay", 2}, {"unshow", 1}, {"tick", 5}, {"prune", 4}, {"reload", 5},
+	// rapid favours the beginning of the table
+	{"tstatus", 10}, {"twait", 7}, {"at", 6}, {"prune", 6}, {"join", 6}, {"wait", 6}, {"add", 8}, {"task", 8}, {"cstatus", 6}, {"notice", 10}, {"reload", 5},
+	{"tset", 6}, {"log", 5}, {"tick", 5}, {"lane", 3}, {"chg", 5}, {"warn", 4}, {"clean", 3}, {"progress", 3}, {"cset", 3}, {"sset", 3},
+	{"acct", 3}, {"tclear", 2}, {"okay", 2}, {"unwarn", 1}, {"unshow", 1},
 }
 
 var c05OpTable = func() []string {
@@ -1261,7 +1298,11 @@ var c05OpTable = func() []string {
 var c05Slots = []int{-40 * c05Day, -29 * c05Day, -27 * c05Day, -8 * c05Day, -7*c05Day - 1, -7 * c05Day, -6 * c05Day, -c05Day, -6, -1, 0, 3, c05Day, 30 * c05Day}
 
 func c05GenOp(t *rapid.T) c05Op {
-	op := c05Op{Op: rapid.SampledFrom(c05OpTable).Draw(t, "op")}
+	return c05GenOpNamed(t, rapid.SampledFrom(c05OpTable).Draw(t, "op"))
+}
+
+func c05GenOpNamed(t *rapid.T, name string) c05Op {
+	op := c05Op{Op: name}
 	idx := func(label string) int { return rapid.IntRange(0, 9).Draw(t, label) }
 	slot := func() int { return rapid.SampledFrom(c05Slots).Draw(t, "slot") }
 	switch op.Op {
@@ -1318,7 +1359,7 @@ func c05GenOp(t *rapid.T) c05Op {
 			u := rapid.SampledFrom([]uint32{0, 1000, 1001, 4294967295}).Draw(t, "uid")
 			op.U = &u
 		}
-		op.D = rapid.SampledFrom([]int64{0, 0, 0, 1, int64(time.Second), int64(90 * time.Second), int64(10 * time.Minute), int64(24 * time.Hour), int64(1000*time.Hour + 1)}).Draw(t, "repeat")
+		op.D = rapid.SampledFrom([]int64{0, 0, 1, int64(time.Second), int64(90 * time.Second), int64(10 * time.Minute), int64(24 * time.Hour), int64(1000*time.Hour + 1)}).Draw(t, "repeat")
 		if rapid.IntRange(0, 2).Draw(t, "data") == 0 {
 			m := map[string]string{}
 			for i, n := 0, rapid.IntRange(0, 2).Draw(t, "ndata"); i < n; i++ {
@@ -1356,6 +1397,32 @@ func c05GenOp(t *rapid.T) c05Op {
 func c05Gen(t *rapid.T) c05Case {
 	maxOps := verifkit.Size(40, 120)
 	c := c05Case{Clock0: rapid.SampledFrom([]int{-1, -1, -6, -c05Day, -6 * c05Day, -8 * c05Day, -27 * c05Day, -29 * c05Day, -40 * c05Day, 3}).Draw(t, "clock0")}
+	// prologue: some changes, tasks and lanes to work with (plain ops as well)
+	withArgs := func(name string, a, b int) c05Op {
+		op := c05GenOpNamed(t, name)
+		op.A, op.B = a, b
+		return op
+	}
+	nchg, ntask, nlane := rapid.IntRange(0, 3).Draw(t, "nchg"), rapid.IntRange(0, 7).Draw(t, "ntask"), rapid.IntRange(0, 3).Draw(t, "nlane")
+	for i := 0; i < nchg; i++ {
+		c.Ops = append(c.Ops, c05GenOpNamed(t, "chg"))
+	}
+	for i := 0; i < nlane; i++ {
+		c.Ops = append(c.Ops, c05Op{Op: "lane"})
+	}
+	for i := 0; i < ntask; i++ {
+		c.Ops = append(c.Ops, c05GenOpNamed(t, "task"))
+		// c05Pick: index 0 is the task just created
+		for j, k := 0, rapid.IntRange(0, 3).Draw(t, "njoin"); j < k && nlane > 0; j++ {
+			c.Ops = append(c.Ops, withArgs("join", 0, rapid.IntRange(0, nlane-1).Draw(t, "lane")))
+		}
+		if i > 0 && rapid.IntRange(0, 2).Draw(t, "edge") > 0 {
+			c.Ops = append(c.Ops, withArgs("wait", 0, rapid.IntRange(0, i-1).Draw(t, "prereq")))
+		}
+		if nchg > 0 && rapid.IntRange(0, 3).Draw(t, "link") > 0 {
+			c.Ops = append(c.Ops, withArgs("add", rapid.IntRange(0, nchg-1).Draw(t, "chg"), 0))
+		}
+	}
 	n := rapid.IntRange(4, maxOps).Draw(t, "nops")
 	for i := 0; i < n; i++ {
 		c.Ops = append(c.Ops, c05GenOp(t))
